@@ -42,6 +42,7 @@ package frugal
 //@   ensures err == nil ==> result != nil && fresh(result) && len(frame) >= 4 && 0 <= u32be(frame, 0) && u32be(frame, 0) <= len(frame) - 4
 //@   ensures err == nil && len(frame) <= 2147483647 ==> hsum(result) <= u32be(frame, 0)
 //@   ensures err != nil ==> result == nil
+//@   ensures len(frame) >= 4 && len(frame) <= 2147483647 && u32be(frame, 0) <= len(frame) - 4 && laid(frame, 4, 4 + u32be(frame, 0)) ==> err == nil && forall(j, 0, hn(), has(result, hk(j)) && result[hk(j)] == hv(j))   // completeness: every laid-out block is accepted, the empty one included
 //@   modifies alloc
 
 // The stream reader takes exactly the 4-byte size and then the announced number of bytes from the
@@ -55,8 +56,14 @@ package frugal
 //@   ensures err != nil ==> result == nil
 //@   modifies alloc, ghost(consumed, reader)
 
+// A frame whose header block decodes and that has room for the 4-byte payload size field is accepted, with
+// the payload being everything after that field (an empty payload included).
 //@ func lib.v0ProtocolMarshaler.unmarshalFrame(v, frame, components)
 //@   locals headers, err, payloadOffset
+//@   ensures ncalls("lib.v0ProtocolMarshaler.unmarshalHeadersFromFrame") == 1
+//@   ensures callret("lib.v0ProtocolMarshaler.unmarshalHeadersFromFrame", 0, 1) != nil ==> result == callret("lib.v0ProtocolMarshaler.unmarshalHeadersFromFrame", 0, 1)
+//@   ensures callret("lib.v0ProtocolMarshaler.unmarshalHeadersFromFrame", 0, 1) == nil && u32be(frame, 0) + 8 <= len(frame) ==> result == nil && components.headers == callret("lib.v0ProtocolMarshaler.unmarshalHeadersFromFrame", 0, 0) && components.payload == subslice(frame, u32be(frame, 0) + 8)
+//@   ensures callret("lib.v0ProtocolMarshaler.unmarshalHeadersFromFrame", 0, 1) == nil && u32be(frame, 0) + 8 > len(frame) ==> result != nil
 //@   modifies alloc, components.headers, components.payload
 
 //@ iface lib.protocolMarshaler.unmarshalHeaders
